@@ -1189,6 +1189,7 @@ func factsC09(r *Repo) []Fact {
 	// ---- nothing a run waits on is process-wide (c09_flight.go) ----
 	out = append(out, c09FlightFacts(r)...)
 	out = append(out, c09ObjectSyncFacts(r)...)
+	out = append(out, c09BranchFact(compose))
 
 	// ---------- shared writes ----------
 	var writes []c09Write
